@@ -69,6 +69,18 @@ def run(chk):
                                     txctx={"tx": c.tx.hex(), "txin": c.funding.hex(), "select": -1})
             jj.fmods = "-" + drop
             spend_jobs.append(jj)
+    # P2SH spends whose scriptSig has unusual shapes: empty redeem script (scriptSig ends in OP_0), OP_n as redeem "push", extra pushes, PUSHDATA forms
+    import gen_limits
+    for k, (redeem, sig_prefix, form) in enumerate([(b"", G.push(b"\x01\x02"), "op0"), (b"\x51", b"", "direct"), (b"\x51", G.push(b"\x07") + G.push(b""), "direct"),
+                                                    (b"\x52\x51\x87\x91\x51", b"\x51", "pd1"), (b"\x51" + bytes([G.OP["NOP"]]) * 80, b"", "pd1")]):
+        spk = bytes([G.OP["HASH160"]]) + G.push(gen_limits.hash160(redeem)) + bytes([G.OP["EQUAL"]])
+        c = gen_spend.SpendCase(rng, "p2pk", "valid", 1, 0, 0)
+        c.funding.vout[0] = btc.TxOut(c.funding.vout[0].amount, spk)
+        c.tx.vin[0].prev_txid = c.funding.txid()
+        c.tx.vin[0].script_sig = sig_prefix + (b"\x00" if form == "op0" else G.push(redeem, 1) if form == "pd1" else G.push(redeem))
+        spend_jobs.append(drivers.SessionJob("ls:p2sh-shape%d" % k, b"", [], [f for f in STANDARD if f != "CLEANSTACK"], "BASE", auto=True,
+                                             txctx={"tx": c.tx.hex(), "txin": c.funding.hex(), "select": -1}))
+        spend_jobs[-1].fmods = "-CLEANSTACK"
     for j in spend_jobs:
         n += 1
         ev = j.open_event(); ev["repl"] = True; ev["hist"] = True; ev["cmp"] = CMP; ev["id"] = "r%d:%s" % (n, j.id)
